@@ -27,7 +27,7 @@ m = {
  "setup_cmd": "./setup.sh",
  "hooks": {
    "guard": "verif",
-   "enable": "go build tag `verif`: the only guarded additions are comment-only contract files <pkg>/zz_contracts_verif.go (//go:build verif); gsv loads /repo with -tags=verif and reads their //@ clauses",
+   "enable": "go build tag `verif`: the guarded additions are comment-only contract files <pkg>/zz_contracts_verif.go (//go:build verif) and one code file message/v2/zz_roundtrip_verif.go (//go:build verif: a lemma function composing toIPLD and fromIPLD, never compiled without the tag); gsv loads /repo with -tags=verif and reads the //@ clauses",
    "baseline_off_cmd": "cd /repo && PATH=/opt/veriftools/go1.26.8/bin:$PATH GOTOOLCHAIN=local GOFLAGS=-mod=mod GOPROXY=off GOSUMDB=off go test -json -vet=off -count=1 -timeout 25m ./...",
    "source_commits": src['hook_commits'],
    "add_only": True
